@@ -138,12 +138,17 @@ def _valid_utf8(b: bytes) -> bool:
     return True
 
 
-def _pair_class(s1, s2, variant) -> str:
-    """input class of a scope pair for the mechanism key: two structural classes are recognised from the strings, else the generator's relation."""
-    p1, p2 = ref_split(s1)[2], ref_split(s2)[2]
-    if not all(_valid_utf8(x) for p in (p1, p2) for x in ref_segments(p)):
-        return 'invalid_utf8_escape'
-    if p1 == '' and p2 and p2[0] != '/':
+def _pair_class(s1, s2, variant, got=None) -> str:
+    """input class of a disagreeing scope pair for the mechanism key.  Two structural classes are recognised from the strings (and only if
+    they explain the disagreement), else the generator's relation is the class."""
+    (sch1, auth1, p1), (sch2, auth2, p2) = ref_split(s1), ref_split(s2)
+    g1, g2 = ref_segments(p1), ref_segments(p2)
+    if got is not False and sch1 == sch2 and auth1 == auth2 and not all(_valid_utf8(x) for x in g1 + g2):
+        # accepted although the octets differ: would the segments be equal if every invalid UTF-8 sequence were the same character?
+        r1, r2 = [x.decode('utf-8', 'replace') for x in g1], [x.decode('utf-8', 'replace') for x in g2]
+        if len(r1) <= len(r2) and r2[:len(r1)] == r1 and g2[:len(g1)] != g1:
+            return 'invalid_utf8_escape'
+    if got is not True and sch1 == sch2 and auth1 == auth2 and p1 == '' and p2 and p2[0] != '/':
         return 'empty_path_vs_rootless'
     return variant
 
@@ -196,7 +201,7 @@ def w_match(ctx: core.Ctx, arg):
             ctx.witness(f'match.raises.{rname}.{variant}', f'match_scope raised {type(ex).__name__}: {ex}', {'requested': s1, 'offered': s2, 'rule': rule})
             continue
         if bool(got) != want:
-            ctx.witness(f'match.{_key_rule(rname)}.{"accepts" if got else "rejects"}.{_pair_class(s1, s2, variant)}',
+            ctx.witness(f'match.{_key_rule(rname)}.{"accepts" if got else "rejects"}.{_pair_class(s1, s2, variant, bool(got))}',
                         f'match_scope says {bool(got)}, the matching rule says {want}',
                         {'requested': s1, 'offered': s2, 'rule': rule, 'relation': variant,
                          'requested_parts': [ref_split(s1)[0], ref_split(s1)[1], [repr(x) for x in ref_segments(ref_split(s1)[2])]],
@@ -340,8 +345,9 @@ def _scope_cause(p_scopes, svc_scopes, rule, rname) -> str:
     for ps in p_scopes or []:
         for ss in svc_scopes:
             try:
-                if bool(match_scope(ps, ss, rule)) != ref_match(ps, ss, rule):
-                    classes.add(_pair_class(ps, ss, 'pair'))
+                got = bool(match_scope(ps, ss, rule))
+                if got != ref_match(ps, ss, rule):
+                    classes.add(_pair_class(ps, ss, 'pair', got))
             except Exception:  # noqa: BLE001
                 classes.add('raises')
     return f'scope.{_key_rule(rname)}.' + (sorted(classes)[0] if classes else 'selection')
@@ -762,12 +768,12 @@ def run(ctx: core.Ctx):
                 '(4) one case = one datagram feed through the real receive loop; non-trivial = every case')
     q = ctx.quick
     jobs = []
-    for i in range(8 if q else 16):
-        jobs.append(['w_match', {'i': i, 'n': 6500 if q else 320000, 'pool': 150 if q else 1500}])
-    for i in range(8 if q else 16):
-        jobs.append(['w_probe', {'i': i, 'n': 60 if q else 1500, 'probes': 6, 'pool': 60 if q else 300}])
-    for i in range(8 if q else 16):
-        jobs.append(['w_table', {'i': i, 'n': 250 if q else 3200, 'len': 30 if q else 60}])
+    for i in range(8 if q else 48):  # thorough: many short jobs, so that no worker comes near the wall-clock watchdog on a loaded machine
+        jobs.append(['w_match', {'i': i, 'n': 6500 if q else 107000, 'pool': 150 if q else 800}])
+    for i in range(8 if q else 48):
+        jobs.append(['w_probe', {'i': i, 'n': 60 if q else 500, 'probes': 6, 'pool': 60 if q else 300}])
+    for i in range(8 if q else 48):
+        jobs.append(['w_table', {'i': i, 'n': 250 if q else 1070, 'len': 30 if q else 60}])
     for i in range(4 if q else 16):
         jobs.append(['w_dup', {'i': i, 'n': 10 if q else 30, 'plan': 'edge'}])
         jobs.append(['w_dup', {'i': 100 + i, 'n': 4 if q else 40, 'plan': 'random', 'len': 600}])
